@@ -394,7 +394,7 @@ func engineC21(c *vctx) error {
 	}
 	worlds, _ = filepath.EvalSymlinks(worlds)
 
-	nsc := c.n(9, 36)
+	nsc := c.n(6, 24)
 	scs := make([]*c21Scenario, nsc)
 	srngs := make([]*vrng, nsc)
 	for i := range scs {
@@ -448,7 +448,7 @@ func engineC21(c *vctx) error {
 	for si, sc := range scs {
 		rng := srngs[si]
 		mode := modes[si%len(modes)]
-		full := si < 3 || c.thorough() && si%4 == 0
+		full := si < 2 || c.thorough() && si%4 == 0
 		dst := filepath.Join(worlds, fmt.Sprintf("%d", si))
 		if err := os.Mkdir(dst, 0o755); err != nil {
 			return err
@@ -462,7 +462,7 @@ func engineC21(c *vctx) error {
 		// ---- direct verifyFile cases on crafted nodes / files ----
 		{
 			res := restorer.NewRestorer(repo, sc.sn, restorer.Options{})
-			nd := c.n(40, 120)
+			nd := c.n(45, 120)
 			for k := 0; k < nd; k++ {
 				c21DirectCase(c, ctx, rng.fork(), sc, res, aux, bt, k)
 			}
@@ -850,6 +850,14 @@ func c21DirectCase(c *vctx, ctx context.Context, rng *vrng, sc *c21Scenario, res
 		c.Hist("tamper-error")
 		return
 	}
+	// several hard links to the target: the non-fail-fast mode then reports (nil, nil) when the file needs restoring
+	hl := st.kind == 'r' && rng.chance(30)
+	if hl {
+		_ = os.Remove(p + "-hl")
+		if err := os.Link(p, p+"-hl"); err != nil {
+			hl = false
+		}
+	}
 	node := &data.Node{Name: "direct", Type: data.NodeTypeFile, Mode: 0o644, ModTime: c21T0, Size: size, Content: restic.IDs{}}
 	for _, b := range blobs {
 		if b == c21Unknown {
@@ -872,6 +880,7 @@ func c21DirectCase(c *vctx, ctx context.Context, rng *vrng, sc *c21Scenario, res
 		stateNil, bm, szm, nr, err = res.VerifC21VerifyFile(ctx, p, node, fast, trust)
 	}()
 	_ = os.RemoveAll(p)
+	_ = os.Remove(p + "-hl")
 	obs := "VErr"
 	switch {
 	case panicked:
@@ -886,9 +895,16 @@ func c21DirectCase(c *vctx, ctx context.Context, rng *vrng, sc *c21Scenario, res
 			}
 			obs = fmt.Sprintf("(VState (Some %s) %s)", coqList(items), coqBool(szm))
 		}
-	case err == nil && stateNil, err != nil && !stateNil:
+	case err != nil && !stateNil:
 		obs = "(VState None false)" // inconsistent pair: reported as a state the model never produces together with nr=true
 		nr = !nr
+	}
+	obs = "(XRes " + obs + ")"
+	if !panicked && err == nil && stateNil {
+		obs = "XNil"
+	}
+	if hl {
+		kind += "-hardlinked"
 	}
 	h := newC21Hasher(sc)
 	if st.kind == 'r' {
@@ -897,8 +913,8 @@ func c21DirectCase(c *vctx, ctx context.Context, rng *vrng, sc *c21Scenario, res
 	if trust {
 		kind += "-trust"
 	}
-	term := fmt.Sprintf("CFile %s %s %s %s %s %s %s %s %s", bt, h.coq(), coqBool(fast), coqBool(trust), coqBool(mteq && st.kind == 'r'),
+	term := fmt.Sprintf("CFile %s %s %s %s %s %s %s %s %s %s", bt, h.coq(), coqBool(hl), coqBool(fast), coqBool(trust), coqBool(mteq && st.kind == 'r'),
 		st.coq(), c21CoqNode(blobs, size), obs, coqBool(nr))
 	c.Case(kind, len(blobs) >= 2, len(st.data)+len(blobs), term,
-		fmt.Sprintf("blobs=%v size=%d file=%s(%s) fast=%v trust=%v mteq=%v -> %s needsRestore=%v", blobs, size, what, st.human(), fast, trust, mteq, obs, nr))
+		fmt.Sprintf("blobs=%v size=%d hl=%v file=%s(%s) fast=%v trust=%v mteq=%v -> %s needsRestore=%v", blobs, size, hl, what, st.human(), fast, trust, mteq, obs, nr))
 }
